@@ -25,6 +25,7 @@ import Dalek.Proofs.KLane.Ifma_CachedPoint_identity
 import Dalek.Proofs.KLane.Ifma_CachedPoint_conditional_select
 import Dalek.Proofs.KLane.Ifma_CachedPoint_conditional_assign
 import Dalek.Proofs.KLane.Bridge
+import Dalek.Proofs.KLane.Programs
 import Dalek.Props.C03.Vector
 import Dalek.Props.C11.VecChain
 /-!
@@ -57,7 +58,7 @@ namespace Dalek.Props.C01.VecFormulas
 open Dalek.IR Dalek.Gen Dalek.Model.VecInv Dalek.Proofs Dalek.Proofs.KLane Dalek.Proofs.Avx2Field Dalek.Proofs.IfmaField
 open Dalek.Edwards
 open Dalek.Bridge (Ed)
-open Dalek.Props.C11.VecChain (Step Formulas)
+open Dalek.Props.C11.VecChain (Step Formulas Backend VOp Ty Typed wellTyped runWith avx2Backend ifmaBackend)
 
 /-- four serial `FieldElement51` (limb lists `X, Y, Z, T`) are extended coordinates of `P` -/
 def RepFe (P : Ed) (X Y Z T : List Nat) : Prop := RepExt P (feVal X) (feVal Y) (feVal Z) (feVal T)
@@ -407,6 +408,32 @@ theorem history_limb_spec (pt : List Nat → Ed) : ∀ (steps : List Step) (acc 
       rw [h2]; rfl
     exact ⟨r', by simp only [Dalek.Props.C11.VecChain.runC, e1, g1], by simp only [Dalek.Props.C11.VecChain.runW, e2, g2], g3, g4⟩
 
+/-- the nine formulas of the AVX2 backend that make up the vector scalar-multiplication code compute the group law on
+machine words (the `_limb_spec` theorems above, packaged) -/
+theorem groupLaw : GroupLaw avx2Backend RepExtW RepCachedW where
+  dbl := fun x hx hP => ExtendedPoint_double_limb_spec x hx hP
+  add := fun x y hx hy hP hQ => ExtendedPoint_add_CachedPoint_limb_spec x y hx hy hP hQ
+  sub := fun x y hx hy hP hQ => ExtendedPoint_sub_CachedPoint_limb_spec x y hx hy hP hQ
+  toCached := fun x hx hP => CachedPoint_from_ExtendedPoint_limb_spec x hx hP
+  negC := fun x hx hP => CachedPoint_neg_limb_spec x hx hP
+  selC := fun x y c hx hy hc hP hQ => CachedPoint_conditional_select_limb_spec x y c hx hy hc hP hQ
+  asgC := fun x y c hx hy hc hP hQ => CachedPoint_conditional_assign_limb_spec x y c hx hy hc hP hQ
+  idE := ExtendedPoint_identity_limb_spec
+  idC := CachedPoint_identity_limb_spec
+
+/-- **AVX2: every well-typed program of vector point operations computes the group law on machine words.**  For any
+straight-line program `ops` over registers holding `ExtendedPoint`s, `CachedPoint`s and `Choice` words (double, ± cached,
+`CachedPoint::from`, cached negation, conditional select / assign = the body of `LookupTable::select`, identities), well typed
+in `Γ`, from registers `env` inside their invariants that represent the curve points `den` (choice words `cv`): the
+overflow-checked run of ALL kernel calls succeeds, equals the release run, every register is inside the invariant of its type
+and REPRESENTS ITS DENOTATION `denRun den cv ops` in the curve group. -/
+theorem program_limb_spec (ops : List VOp) (Γ : List Ty) (den : List Ed) (cv : List Nat) (env : List (List Nat))
+    (ht : Typed avx2Backend Γ env) (hr : Reps RepExtW RepCachedW Γ den cv env) (hw : wellTyped avx2Backend Γ ops = true) :
+    ∃ env', runWith KProg.evalC avx2Backend env ops = some env' ∧ runWith KProg.evalW avx2Backend env ops = some env' ∧
+      Typed avx2Backend (tyRun avx2Backend Γ ops) env' ∧
+      Reps RepExtW RepCachedW (tyRun avx2Backend Γ ops) (denRun den cv ops) (cv ++ List.replicate ops.length 0) env' :=
+  program_group groupLaw ops Γ den cv env ht hr hw
+
 end Avx2
 
 /-! ## The IFMA backend (`backend/vector/ifma/edwards.rs`) -/
@@ -692,6 +719,32 @@ theorem history_limb_spec (pt : List Nat → Ed) : ∀ (steps : List Step) (acc 
       rw [h2]; rfl
     exact ⟨r', by simp only [Dalek.Props.C11.VecChain.runC, e1, g1], by simp only [Dalek.Props.C11.VecChain.runW, e2, g2], g3, g4⟩
 
+/-- the nine formulas of the IFMA backend that make up the vector scalar-multiplication code compute the group law on
+machine words (the `_limb_spec` theorems above, packaged) -/
+theorem groupLaw : GroupLaw ifmaBackend RepExtW RepCachedW where
+  dbl := fun x hx hP => ExtendedPoint_double_limb_spec x hx hP
+  add := fun x y hx hy hP hQ => ExtendedPoint_add_CachedPoint_limb_spec x y hx hy hP hQ
+  sub := fun x y hx hy hP hQ => ExtendedPoint_sub_CachedPoint_limb_spec x y hx hy hP hQ
+  toCached := fun x hx hP => CachedPoint_from_ExtendedPoint_limb_spec x hx hP
+  negC := fun x hx hP => CachedPoint_neg_limb_spec x hx hP
+  selC := fun x y c hx hy hc hP hQ => CachedPoint_conditional_select_limb_spec x y c hx hy hc hP hQ
+  asgC := fun x y c hx hy hc hP hQ => CachedPoint_conditional_assign_limb_spec x y c hx hy hc hP hQ
+  idE := ExtendedPoint_identity_limb_spec
+  idC := CachedPoint_identity_limb_spec
+
+/-- **IFMA: every well-typed program of vector point operations computes the group law on machine words.**  For any
+straight-line program `ops` over registers holding `ExtendedPoint`s, `CachedPoint`s and `Choice` words (double, ± cached,
+`CachedPoint::from`, cached negation, conditional select / assign = the body of `LookupTable::select`, identities), well typed
+in `Γ`, from registers `env` inside their invariants that represent the curve points `den` (choice words `cv`): the
+overflow-checked run of ALL kernel calls succeeds, equals the release run, every register is inside the invariant of its type
+and REPRESENTS ITS DENOTATION `denRun den cv ops` in the curve group. -/
+theorem program_limb_spec (ops : List VOp) (Γ : List Ty) (den : List Ed) (cv : List Nat) (env : List (List Nat))
+    (ht : Typed ifmaBackend Γ env) (hr : Reps RepExtW RepCachedW Γ den cv env) (hw : wellTyped ifmaBackend Γ ops = true) :
+    ∃ env', runWith KProg.evalC ifmaBackend env ops = some env' ∧ runWith KProg.evalW ifmaBackend env ops = some env' ∧
+      Typed ifmaBackend (tyRun ifmaBackend Γ ops) env' ∧
+      Reps RepExtW RepCachedW (tyRun ifmaBackend Γ ops) (denRun den cv ops) (cv ++ List.replicate ops.length 0) env' :=
+  program_group groupLaw ops Γ den cv env ht hr hw
+
 end Ifma
 
 /-! ### The hypotheses are satisfiable -/
@@ -712,6 +765,19 @@ example : ∃ x y, EnvIn x Ifma.invExt ∧ Ifma.RepExtW 0 x ∧ EnvIn y Ifma.inv
   obtain ⟨x, _, _, hx, hP⟩ := Ifma.ExtendedPoint_identity_limb_spec
   obtain ⟨y, _, _, hy, hQ⟩ := Ifma.CachedPoint_identity_limb_spec
   exact ⟨x, y, hx, hP, hy, hQ⟩
+
+/-- the denotation of one window step of the vector `variable_base::mul` (table entry selected by conditional assignment
+from `Q1`, `Q2` with choice `c`, conditionally negated with the same choice, four doublings of the accumulator `P`, one
+addition): register 11 denotes `16 P ± Qc` -/
+example (P Q1 Q2 : Ed) (c : Nat) :
+    (denRun [P, Q1, Q2, 0] [0, 0, 0, c]
+      [.asgC 1 2 3, .negC 4, .selC 4 5 3, .dbl 0, .dbl 7, .dbl 8, .dbl 9, .add 10 6]).getD 11 0
+    = 2 • (2 • (2 • (2 • P))) + (if c = 0 then (if c = 0 then Q1 else Q2) else -(if c = 0 then Q1 else Q2)) := rfl
+
+/-- the per-formula check discriminates: the kernel calls of `CachedPoint_neg` are NOT the lane terms of the AlgIR item
+`CachedPoint_from_ExtendedPoint` (evaluated by the Lean kernel) -/
+example : refOk Dalek.Proofs.KLane.Avx2.table KAvx2Edwards.CachedPoint_neg [Avx2.invCached] [.v26] .v26
+    AlgAvx2Edwards.CachedPoint_from_ExtendedPoint = false := by decide +kernel
 
 /-! ### Axiom audit -/
 
@@ -802,6 +868,9 @@ example : ∃ x y, EnvIn x Ifma.invExt ∧ Ifma.RepExtW 0 x ∧ EnvIn y Ifma.inv
 /-- info: 'Dalek.Props.C01.VecFormulas.Avx2.history_limb_spec' depends on axioms: [propext, Classical.choice, Quot.sound] -/
 #guard_msgs (whitespace := lax) in #print axioms Avx2.history_limb_spec
 
+/-- info: 'Dalek.Props.C01.VecFormulas.Avx2.program_limb_spec' depends on axioms: [propext, Classical.choice, Quot.sound] -/
+#guard_msgs (whitespace := lax) in #print axioms Avx2.program_limb_spec
+
 /-- info: 'Dalek.Props.C01.VecFormulas.Ifma.ExtendedPoint_from_EdwardsPoint_lanes' depends on axioms: [propext, Classical.choice, Quot.sound] -/
 #guard_msgs (whitespace := lax) in #print axioms Ifma.ExtendedPoint_from_EdwardsPoint_lanes
 
@@ -876,5 +945,8 @@ example : ∃ x y, EnvIn x Ifma.invExt ∧ Ifma.RepExtW 0 x ∧ EnvIn y Ifma.inv
 
 /-- info: 'Dalek.Props.C01.VecFormulas.Ifma.history_limb_spec' depends on axioms: [propext, Classical.choice, Quot.sound] -/
 #guard_msgs (whitespace := lax) in #print axioms Ifma.history_limb_spec
+
+/-- info: 'Dalek.Props.C01.VecFormulas.Ifma.program_limb_spec' depends on axioms: [propext, Classical.choice, Quot.sound] -/
+#guard_msgs (whitespace := lax) in #print axioms Ifma.program_limb_spec
 
 end Dalek.Props.C01.VecFormulas
